@@ -1242,6 +1242,10 @@ SUBS = {'forward': case_forward, 'extract': case_extract,
         'ellipse': case_ellipse, 'gradient': case_gradient}
 
 
+FUZZ = {'extract': (extract_strategy(), case_extract),
+        'ellipse': (ellipse_strategy(), case_ellipse)}
+
+
 def run(ctx):
     ctx.regression(SUBS)
     ctx.explore('ellipse', ellipse_strategy(), case_ellipse,
@@ -1252,3 +1256,5 @@ def run(ctx):
                 ctx.n(150, 1200), shrink=False)
     ctx.explore('gradient', gradient_strategy(), case_gradient,
                 ctx.n(40, 150), shrink=False)
+    ctx.fuzz('extract', ctx.n(250, 5000))
+    ctx.fuzz('ellipse', ctx.n(150, 3000))
